@@ -72,29 +72,36 @@ func (s *linState) key() string {
 	return fmt.Sprintf("%v|%s", s.provOpen, strings.Join(parts, ","))
 }
 
+// scopeTreeModel: a Close is not atomic with respect to operations on OTHER handles (godi
+// marks the target disposed and then closes descendants / the provider's scopes one by one),
+// so its linearization point only moves the affected scopes to "closing": from then on an
+// operation on them may complete normally or report the disposed error. What must never
+// happen — and is what this model refutes — is a disposed error on a scope that no close has
+// reached, a service-not-found for a registered identity, or two different instances of one
+// scoped / singleton identity. "Closed means closed" after the closing call RETURNED is a
+// real-time rule and is checked separately (postCloseUse).
 var scopeTreeModel = porcupine.Model{
 	Init: func() any { return &linState{provOpen: true, scopes: map[int]scopeSt{}, cache: map[string]int64{}} },
 	Step: func(state, input, output any) (bool, any) {
 		st := state.(*linState)
 		in := input.(linIn)
 		out := output.(linOut)
-		// which of the two disposed errors an operation racing provider.Close reports is not
-		// prescribed (the sequential clauses of C13 check the exact one after Close returned)
 		isDisposed := out.Class == "scope-disposed" || out.Class == "provider-disposed"
+		closing := !st.isOpen(in.Scope)
 		switch in.Kind {
 		case core.OpCreate:
-			if !st.isOpen(in.Scope) {
-				return isDisposed, st
+			if isDisposed {
+				return closing, st
 			}
 			if out.Class != "ok" {
 				return false, st
 			}
 			n := st.clone()
-			n.scopes[out.NewScope] = scopeSt{open: true, parent: in.Scope}
+			n.scopes[out.NewScope] = scopeSt{open: !closing, parent: in.Scope}
 			return true, n
 		case core.OpGet, core.OpGetGroup:
-			if !st.isOpen(in.Scope) {
-				return isDisposed, st
+			if isDisposed {
+				return closing, st
 			}
 			switch in.Life {
 			case 0:
@@ -217,4 +224,67 @@ func checkLinearizable(h []porcupine.Operation) (string, string) {
 		lines = append(lines, fmt.Sprintf("  client %d [%d,%d] %s", op.ClientId, op.Call, op.Return, scopeTreeModel.DescribeOperation(op.Input, op.Output)))
 	}
 	return "illegal", strings.Join(lines, "\n")
+}
+
+// postCloseUse is the real-time half of "closed means closed": an operation on scope t that
+// was CALLED after a closing call affecting t had RETURNED must not succeed.
+func postCloseUse(r *core.Run) []core.Finding {
+	var fs []core.Finding
+	type closer struct {
+		kind  core.OpKind
+		scope int
+		ret   int64
+		op    int
+	}
+	var closers []closer
+	for i := range r.Results {
+		res := &r.Results[i]
+		op := r.Ops[res.Op]
+		if res.Ret == 0 || res.Class == "PANIC" || res.Class == "skipped" || res.Class == "cancel-not-closed" {
+			continue
+		}
+		switch op.Kind {
+		case core.OpClose, core.OpCancel, core.OpCloseProvider:
+			closers = append(closers, closer{op.Kind, op.Scope, res.Ret, res.Op})
+		}
+	}
+	affects := func(c closer, t int) bool {
+		if c.kind == core.OpCloseProvider {
+			return true
+		}
+		if c.kind == core.OpCancel {
+			// the awaited effect of a cancellation is that the cancelled scope itself refuses use;
+			// its descendants are closed by the same watcher goroutine, but asynchronously
+			return t == c.scope
+		}
+		for a := t; a > 0; a = r.ScopeHandle(a).Parent {
+			if a == c.scope {
+				return true
+			}
+		}
+		return false
+	}
+	for i := range r.Results {
+		res := &r.Results[i]
+		op := r.Ops[res.Op]
+		if res.Class != "ok" || res.Call == 0 {
+			continue
+		}
+		if op.Kind != core.OpGet && op.Kind != core.OpGetGroup && op.Kind != core.OpCreate {
+			continue
+		}
+		for _, c := range closers {
+			if c.ret < res.Call && affects(c, op.Scope) {
+				how := "Close"
+				if c.kind == core.OpCancel {
+					how = "context cancellation (awaited)"
+				} else if c.kind == core.OpCloseProvider {
+					how = "provider.Close"
+				}
+				fs = append(fs, core.Finding{Clause: "use-after-close-accepted", Sig: opKindName(op) + ":after-" + strings.ReplaceAll(how, " ", "-"), Detail: fmt.Sprintf("op%d %s succeeded although op%d (%s affecting that scope) had already returned (seq %d < %d)", res.Op, op.String(), c.op, how, c.ret, res.Call)})
+				break
+			}
+		}
+	}
+	return fs
 }
